@@ -97,10 +97,38 @@ def conjuncts(test: ast.AST, polarity: bool) -> list[tuple[ast.AST, bool]]:
 	return [(test, polarity)]
 
 
-def facts(func_node: ast.AST, target: ast.AST) -> list[tuple[str, bool]]:
-	"""(source of atomic condition, truth) known at target"""
-	out = []
+def atoms(func_node: ast.AST, target: ast.AST) -> list[tuple[ast.AST, bool]]:
+	"""atomic conditions (with truth value) known at target; a Name bound once to a condition stands for that condition"""
+	out: list[tuple[ast.AST, bool]] = []
+
+	def add(a: ast.AST, p: bool, depth: int) -> None:
+		if isinstance(a, ast.Name) and depth < 4:
+			d = deref(func_node, a)
+			if d is not a:
+				for a2, p2 in conjuncts(d, p):
+					add(a2, p2, depth + 1)
+				return
+		out.append((a, p))
+
 	for t, pol in path_conditions(func_node, target):
 		for a, p in conjuncts(t, pol):
-			out.append((unparse(a), p))
+			add(a, p, 0)
 	return out
+
+
+def facts(func_node: ast.AST, target: ast.AST) -> list[tuple[str, bool]]:
+	"""(source of atomic condition, truth) known at target"""
+	return [(unparse(a), p) for a, p in atoms(func_node, target)]
+
+
+def deref(fn_node: ast.AST, e: ast.AST, depth: int = 4) -> ast.AST:
+	"""a Name bound exactly once in the function (plain or annotated assignment) stands for the assigned expression"""
+	while isinstance(e, ast.Name) and depth > 0:
+		stores = [n for n in ast.walk(fn_node) if isinstance(n, ast.Name) and n.id == e.id and isinstance(n.ctx, (ast.Store, ast.Del))]
+		defs = [n for n in ast.walk(fn_node) if isinstance(n, (ast.Assign, ast.AnnAssign)) and n.value is not None
+			and any(isinstance(t, ast.Name) and t.id == e.id for t in (n.targets if isinstance(n, ast.Assign) else [n.target]))]
+		if len(stores) != 1 or len(defs) != 1:
+			return e
+		e = defs[0].value
+		depth -= 1
+	return e
